@@ -135,9 +135,15 @@ func nativeReplayBatch(P *Program, files []string, race bool) (map[string]*repla
 	os.WriteFile(regPath, rb.Bytes(), 0644)
 	ov := map[string]map[string]string{"Replace": {}}
 	hd := envOr("VERIF_HARNESS", filepath.Join(verifDir, "harness"))
+	for name, content := range P.HarnessFiles {
+		fp := filepath.Join(tmp, "h_"+name)
+		os.WriteFile(fp, content, 0644)
+		ov["Replace"][filepath.Join(P.RepoDir, "zz_verif_"+name)] = fp
+	}
+	// test-only files of the harness directory
 	ents, _ := os.ReadDir(hd)
 	for _, e := range ents {
-		if strings.HasSuffix(e.Name(), ".go") {
+		if strings.HasSuffix(e.Name(), "_test.go") {
 			ov["Replace"][filepath.Join(P.RepoDir, "zz_verif_"+e.Name())] = filepath.Join(hd, e.Name())
 		}
 	}
@@ -271,6 +277,10 @@ func cmdCheck(args []string) int {
 	}
 
 	var reports []harnessReport
+	missingHarness := 0
+	for name, why := range P.Dropped {
+		fmt.Fprintf(os.Stderr, "harness file %s: %s\n", name, why)
+	}
 	var allV []*Violation
 	vBounds := map[*Violation]map[string]int{}
 	exhaustive := true
@@ -289,8 +299,12 @@ func cmdCheck(args []string) int {
 			continue
 		}
 		if !have[hs.Name] {
-			fmt.Fprintln(os.Stderr, "harness missing:", hs.Name)
-			return 2
+			msg := "harness " + hs.Name + " is not available: its file does not type-check against the current tree"
+			fmt.Fprintln(os.Stderr, msg)
+			exhaustive = false
+			incomplete = append(incomplete, msg)
+			missingHarness++
+			continue
 		}
 		b := hs.Quick
 		if *tier == "thorough" && hs.Thorough != nil {
@@ -602,6 +616,7 @@ func cmdCheck(args []string) int {
 			"samples":                       samples,
 			"harnesses":                     reports,
 			"functions_encoded":             fnList,
+			"harness_files_substituted":     P.Dropped,
 			"environment_models_hit":        inList,
 			"solver_queries":                solverTot.Queries,
 			"solver_time_s":                 solverTot.Time.Seconds(),
